@@ -452,12 +452,12 @@ class SmallSet {
 
   node_type extract(const_iterator position) {
     if (isSmall()) {
-      auto vecIt = position.toVecIt();
+      auto vecIt = ToVecIt(position);
       node_type nt(std::move(*const_cast<typename VecType::iterator>(vecIt)), get_allocator());
       _vec.erase(vecIt);
       return nt;
     }
-    auto setIt = position.toSetIt();
+    auto setIt = ToSetIt(position);
     auto setNt = _set.extract(setIt);
     node_type nt(std::move(setNt.value()), setNt.get_allocator());
     return nt;
@@ -620,6 +620,15 @@ class SmallSet {
   template <class I>
   static inline SetIt ToSetIt(I it, typename std::enable_if<!std::is_same<I, const T *>::value>::type * = 0) {
     return it.toSetIt();
+  }
+
+  template <class I>
+  static inline const T *ToVecIt(I it, typename std::enable_if<std::is_same<I, const T *>::value>::type * = 0) {
+    return it;
+  }
+  template <class I>
+  static inline const T *ToVecIt(I it, typename std::enable_if<!std::is_same<I, const T *>::value>::type * = 0) {
+    return it.toVecIt();
   }
 
   template <class V>
